@@ -266,8 +266,8 @@ func main() {
 		lib.SchPatchMemberKeys(c.T, c.Level, c.V)
 		gs = append(gs, c.T)
 		for _, route := range lib.SchRoutes(c.V) {
-			if route == "node" {
-				continue // AssignNode of a foreign node on generated builders: C13's separate obligation
+			if route == "node" && !c.T.AssignNodeSafe() {
+				continue // the known AssignNode defect of generated maps / Maybe targets: C13's separate obligation
 			}
 			gc = append(gc, &schgen.Case{ID: fmt.Sprintf("c%d.%s.gen", i, route), SI: len(gs) - 1, Op: "build", Level: c.Level, Route: route, V: c.V})
 		}
@@ -298,7 +298,7 @@ func main() {
 				v := rng.SchValue(t, level, mut)
 				var routes []string
 				for _, r := range lib.SchRoutes(v) {
-					if r != "node" {
+					if r != "node" || t.AssignNodeSafe() {
 						routes = append(routes, r)
 					}
 				}
